@@ -116,6 +116,14 @@ def run(ctx):
     reqs, meta = [], []
     n_done = 0
     queue = list(exhaustive_axis_cases(rng)) if (ctx.tier == "thorough" and not ctx.search_mode) else []
+    # always present: more than 65535 distinct labels in ONE chunk and several chunks (an over-segmentation in chunks
+    # of 48^3): results of label bookkeeping in narrow types differ between a chunk and the whole array
+    mk = lambda key, size, cs: {"key": key, "encoding": "raw", "size": size, "resolution": [1, 1, 1],  # noqa
+                                "voxel_offset": [0, 0, 0], "chunk_sizes": [cs]}
+    if not ctx.search_mode:
+        queue.append(({"type": "segmentation", "data_type": "uint32", "num_channels": 1,
+                       "scales": [mk("old", [96, 48, 48], [48, 48, 48]), mk("new", [48, 24, 24], [24, 24, 24])]},
+                      "many-labels"))
     budget = ctx.budget(90, 2500) + len(queue)
     attempts = 0
     while n_done < budget and attempts < 10 * budget:
@@ -133,10 +141,14 @@ def run(ctx):
             opts = {"outside_value": rng.choice([0.0, 1.0, 200.0])}
         if method == "majority" and dt == "float32":
             method = "stride"
+        if origin == "many-labels":
+            method, opts = "majority", {}
         ds = downscaling.get_downscaler(method, info=None, options=opts)
         nr = np.random.default_rng(rng.getrandbits(32))
         shape = (C, old["size"][2], old["size"][1], old["size"][0])
-        if dt == "float32":
+        if origin == "many-labels":
+            vol = nr.permutation(int(np.prod(shape))).astype(dt).reshape(shape)
+        elif dt == "float32":
             vol = nr.integers(0, 1000, size=shape).astype("float32")
         else:
             vol = nr.integers(0, min(int(np.iinfo(dt).max), 2**31), size=shape).astype(dt) \
